@@ -4,7 +4,7 @@ From Coq Require Import List NArith ZArith Bool Lia.
 From MV Require Import Lib.HBits Gen.HpackTables Gen.H2Src Model.Hpack
   Proofs.HpackInt Proofs.HpackHuffman Proofs.HpackString Proofs.HpackRepr Proofs.HpackEnc.
 (* the comparison functions of the correspondence shards are built together with this file *)
-From MV Require Model.HpackCases Model.H2FrameCases.
+From MV Require Model.HpackCases Model.H2FrameCases Model.FlowCases.
 Import ListNotations.
 Open Scope N_scope.
 
